@@ -5,7 +5,7 @@ from vp.h import Vector, Table
 
 H.standard_env()
 ASSUMPTIONS = [
-    'rows <= 3 (quick) / 4 (thorough); keys Optional[int], unbounded mathematical integers',
+    'rows <= 3 (quick) / 4 (thorough); keys Optional[int], unbounded mathematical integers; other key kinds (str incl. the empty string, float incl. 0.0 and inf, bool, date) are menu-bounded: 3 elements, each a solver-chosen menu entry (kind[...] obligations); NaN keys are outside (no order)',
     'id() of storage tuples replaced by a never-reusing stub (keeps C15 behaviour out of this check)',
     '_sanitize_user_name runs natively on concrete names',
 ]
@@ -216,6 +216,69 @@ def h_vector_sort_stable(t0: int, t1: int, t2: int, rev: bool) -> bool:
     return H.ok()
 
 
+import datetime as _dt
+KIND_MENUS = {
+    'str': [None, '', 'a', 'B', 'ab'],                    # '' is falsy, 'B' < 'a' < 'ab'
+    'float': [None, 0.0, -1.5, 2.0, float('inf')],         # 0.0 is falsy; NaN is outside (no order)
+    'bool': [None, False, True],
+    'date': [None, _dt.date(2020, 1, 1), _dt.date(1999, 12, 31), _dt.date(2020, 1, 2)],
+    'intfalsy': [None, 0, -1, 1],
+}
+
+
+def _kind_body(kind, idx, rev, na_last, target):
+    menu = KIND_MENUS[kind]
+    ks = [menu[i] for i in idx]
+    n = len(ks)
+    if target == 'vector':
+        v = Vector(ks, name='nm')
+        before = H.snap(v)
+        try:
+            out = v.sort_by(reverse=rev, na_last=na_last)
+        except Exception as e:
+            return H.fail('Vector(%r).sort_by(reverse=%r, na_last=%r) raised %r' % (ks, rev, na_last, e))
+        got = list(out)
+        if sorted(map(repr, got)) != sorted(map(repr, ks)): return H.fail('not a permutation: %r of %r' % (got, ks))
+        why = _sorted_contract([(x, 0) for x in got], 1, [rev], na_last)
+        if why: return H.fail('%r sorted to %r: %s' % (ks, got, why))
+        if not H.snap_eq(before, H.snap(v)): return H.fail('input modified')
+        if out.name != 'nm' or out.schema() != v.schema(): return H.fail('name/dtype not kept: %r -> %r' % (v.schema(), out.schema()))
+        return True
+    t = Table({'k': ks, 'pos': list(range(n))})
+    before = H.snap(t)
+    try:
+        out = t.sort_by('k' if target == 'table' else t.k, reverse=rev, na_last=na_last)
+    except Exception as e:
+        return H.fail('Table(k=%r).sort_by(reverse=%r, na_last=%r) raised %r' % (ks, rev, na_last, e))
+    rows = H.rows_of(out)
+    if sorted(r[1] for r in rows) != list(range(n)): return H.fail('not a permutation: %r' % (rows,))
+    for r in rows:
+        if not H.same(ks[r[1]], r[0]): return H.fail('cells split: %r' % (rows,))
+    why = _sorted_contract(rows, 1, [rev], na_last)
+    if why: return H.fail('keys %r: %s' % (ks, why))
+    if not H.snap_eq(before, H.snap(t)): return H.fail('input modified')
+    tr = H.all_truthful(out)
+    if tr: return H.fail(tr)
+    return True
+
+
+def h_sort_kind(i0: int, i1: int, i2: int, rev: bool, na_last: bool) -> bool:
+    """
+    pre: 0 <= i0 and 0 <= i1 and 0 <= i2
+    pre: i0 < H.cfg('M') and i1 < H.cfg('M') and i2 < H.cfg('M')
+    post: _
+    """
+    # key kinds other than int: three solver-chosen menu entries (every multiset and order), direction and None placement symbolic;
+    # once the picks are made no symbolic value reaches serif, so the body runs natively
+    H.reset()
+    if H.skip(locals()): return True
+    M = list(range(H.cfg('M')))
+    idx = (H.among(M, i0), H.among(M, i1), H.among(M, i2))
+    r_ = H.concrete(_kind_body, H.cfg('kind'), idx, bool(rev), bool(na_last), H.cfg('target'))
+    if r_ is not True: return False
+    return H.ok()
+
+
 def obligations(tier):
     q = tier == 'quick'
     R = 3 if q else 4
@@ -270,6 +333,11 @@ def obligations(tier):
                             bounds='len=%d, Optional[int] unbounded' % R, smoke=[[3, None, 1, 2, R, rev, na]]))
     obs.append(dict(name='vector-stable', fn='h_vector_sort_stable', config={}, budget=60,
                     bounds='3 elements from {1, True, 1.0}, direction symbolic', smoke=[[0, 1, 2, False]]))
+    for kind in ('str', 'float', 'bool', 'date', 'intfalsy'):
+        for target in ('vector', 'table', 'table-byvec'):
+            obs.append(dict(name='kind[%s,%s]' % (kind, target), fn='h_sort_kind', config={'kind': kind, 'target': target, 'M': len(KIND_MENUS[kind])}, budget=90 if q else 200,
+                            bounds='3 elements, each a solver-chosen entry of %r; reverse and na_last symbolic; %s.sort_by' % (KIND_MENUS[kind], 'Vector' if target == 'vector' else 'Table'),
+                            smoke=[[0, 1, 2, False, True], [2, 1, 1, True, False]]))
     if not q:
         for ra in B:
             for rb in B:
